@@ -257,25 +257,73 @@ fn ledger_add(addr: usize, len: usize) {
     }
     ledger_unlock();
 }
-/// returns 0 = exact hit removed, 1 = address hit but length differs (removed), 2 = no hit
+/// Gives back [addr, addr+len) on behalf of the library. Returns
+/// 0 = the range consists of one or more WHOLE ledger mappings (all removed) and, apart from them, only of pages
+///     that are not mapped at all (several adjacent trampolines released by one call are fine),
+/// 1 = it cuts a ledger mapping in part, or covers a ledger mapping plus memory somebody else has mapped,
+/// 2 = it touches no ledger mapping.
 #[allow(static_mut_refs)]
 fn ledger_remove(addr: usize, len: usize) -> u8 {
+    let end = addr.saturating_add(page_round(len));
     ledger_lock();
-    let n = LEDGER_N.load(Ordering::Relaxed);
-    let mut r = 2u8;
-    for i in 0..n {
+    let mut n = LEDGER_N.load(Ordering::Relaxed);
+    let mut whole = 0usize;
+    let mut covered = 0usize;
+    let mut partial = false;
+    let mut spans: [(usize, usize); 16] = [(0, 0); 16];
+    let mut i = 0;
+    while i < n {
         let (a, l) = unsafe { LEDGER[i] };
-        if a == addr {
-            r = if l == page_round(len) { 0 } else { 1 };
+        let e = a + l;
+        if a >= addr && e <= end {
+            if whole < 16 {
+                spans[whole] = (a, e);
+            }
+            whole += 1;
+            covered += l;
             unsafe {
                 LEDGER[i] = LEDGER[n - 1];
             }
-            LEDGER_N.store(n - 1, Ordering::Relaxed);
-            break;
+            n -= 1;
+            continue; // re-examine the entry moved into slot i
+        } else if a < end && e > addr {
+            partial = true;
+            if a == addr {
+                // same start, other length: the entry is gone as far as the bookkeeping goes
+                unsafe {
+                    LEDGER[i] = LEDGER[n - 1];
+                }
+                n -= 1;
+                continue;
+            }
         }
+        i += 1;
     }
+    LEDGER_N.store(n, Ordering::Relaxed);
     ledger_unlock();
-    r
+    if partial {
+        return 1;
+    }
+    if whole == 0 {
+        return 2;
+    }
+    if covered == end - addr {
+        return 0;
+    }
+    // the rest of the range: harmless only if nothing is mapped there
+    let mut p = addr;
+    while p < end {
+        let in_span = spans.iter().take(whole.min(16)).any(|(a, e)| p >= *a && p < *e);
+        if !in_span {
+            let mut v = 0u8;
+            let r = unsafe { libc::mincore(p as *mut libc::c_void, 4096, &mut v as *mut u8) };
+            if r == 0 {
+                return 1; // somebody's page lies inside the range the library gives back
+            }
+        }
+        p += 4096;
+    }
+    0
 }
 #[allow(static_mut_refs)]
 pub fn ledger_snapshot() -> Vec<(usize, usize)> {
